@@ -94,9 +94,9 @@ func initialConfig() *gcfg.Config {
 }
 
 const (
-	clsRoute   = "route"           // valid, differs from the initial config in Lite routes only
-	clsInvalid = "invalid"         // routes only, but does not validate
-	clsOther   = "nonroute"        // valid, changes something else (with or without a route change)
+	clsRoute   = "route"            // valid, differs from the initial config in Lite routes only
+	clsInvalid = "invalid"          // routes only, but does not validate
+	clsOther   = "nonroute"         // valid, changes something else (with or without a route change)
 	clsBoth    = "invalid+nonroute" // either rejection code
 	clsNil     = "nil"
 )
